@@ -101,6 +101,41 @@ def run_tlapm(module, timeout=900):
 
 
 # --------------------------------------------------------------------------------------------
+# Apalache driver (symbolic checker; used for inductive invariants of the small arithmetic machines)
+# --------------------------------------------------------------------------------------------
+def run_apalache(module, init, inv, length, cinit=None, timeout=600):
+    """apalache-mc check on a scratch copy of spec/<module>.tla (+ the modules it instantiates). Returns (ok, wall, tail)."""
+    with Scratch("apa") as d:
+        for sub in ("", "apalache"):
+            for f in os.listdir(os.path.join(SPEC, sub)):
+                if f.endswith(".tla"):
+                    shutil.copy(os.path.join(SPEC, sub, f), d)
+        cmd = ["apalache-mc", "check", f"--init={init}", f"--inv={inv}", f"--length={length}", f"--out-dir={d}/out"]
+        if cinit:
+            cmd.append(f"--cinit={cinit}")
+        cmd.append(module + ".tla")
+        t0 = time.time()
+        try:
+            pr = subprocess.run(cmd, cwd=d, stdout=subprocess.PIPE, stderr=subprocess.STDOUT, timeout=timeout, text=True)
+        except subprocess.TimeoutExpired:
+            raise MachineryError(f"apalache timed out on {module}")
+        out = pr.stdout
+    ok = pr.returncode == 0 and "The outcome is: NoError" in out
+    return ok, time.time() - t0, "\n".join(out.splitlines()[-12:])
+
+
+def apalache_first_crossing(strict):
+    """the inductive invariant of FirstCrossing, symbolically, for all amounts and limits: holds initially, preserved by every step"""
+    c = "CInitStrict" if strict else "CInitLoose"
+    ok0, w0, t0 = run_apalache("FirstCrossingApa", "Init", "IndInv", 0, cinit=c)
+    ok1, w1, t1 = run_apalache("FirstCrossingApa", "IndInit", "IndInv", 1, cinit=c)
+    if not (ok0 and ok1):
+        print(t0 if not ok0 else t1)
+        raise MachineryError("apalache: IndInv of FirstCrossing is not inductive")
+    return round(w0 + w1, 1)
+
+
+# --------------------------------------------------------------------------------------------
 # TLC driver
 # --------------------------------------------------------------------------------------------
 class TlcResult:
